@@ -806,13 +806,18 @@ fn bulk_byte(i: usize, k: u64) -> u8 {
 /// buffer) requested by a client that then does not read for a while, followed by a small unicast and a broadcast.
 /// Everything must arrive complete and well-framed once the client reads (the app may block meanwhile; it must not
 /// cut the message short).
-fn bulk_scenario(r: &mut Report, seed: u64, k: u64) {
-    let mut rng = Rng::derive(seed, 0x12b0_0000 + k);
+/// Sizes around the three RFC 6455 length forms and their neighbours, for server-side sends (seeded C12-L).
+const SWEEP_SIZES: [usize; 16] = [0, 125, 126, 127, 128, 65534, 65535, 65536, 65537, 70_000, 100_000, 131_071, 131_072, 131_073, 200_000, 1 << 20];
+
+fn bulk_scenario(r: &mut Report, seed: u64, k: u64, sweep: bool) {
+    let mut rng = Rng::derive(seed, 0x12b0_0000 + k + if sweep { 0x8000 } else { 0 });
     let mib = *rng.pick(&[6usize, 12, 16]);
-    let pause_ms = *rng.pick(&[300u64, 700, 1000]);
+    let pause_ms = if sweep { 5 } else { *rng.pick(&[300u64, 700, 1000]) };
+    // in a sweep scenario the unicast and the external broadcast have boundary sizes instead
+    let (sweep_uni, sweep_bc) = (SWEEP_SIZES[k as usize % 16].max(1), SWEEP_SIZES[(k as usize * 7 + 3) % 16]);
     let poll: Option<Duration> = *rng.pick(&[None, Some(Duration::from_millis(1)), Some(Duration::from_millis(10))]);
     let handlers = rng.urange(1, 4);
-    let replay = vec!["c12".to_string(), "--seed".into(), seed.to_string(), "--bulk".into(), k.to_string()];
+    let replay = vec!["c12".to_string(), "--seed".into(), seed.to_string(), if sweep { "--sizes" } else { "--bulk" }.into(), k.to_string()];
     let port = hvcommon::net::free_port("127.0.0.1");
     let addr: SocketAddr = format!("127.0.0.1:{}", port).parse().unwrap();
     let state = Arc::new(St { log: Mutex::new(Vec::new()) });
@@ -855,9 +860,10 @@ fn bulk_scenario(r: &mut Report, seed: u64, k: u64) {
         std::thread::sleep(Duration::from_millis(3));
     }
     r.eval();
-    r.count("bulk_scenarios", 1);
-    r.nontrivial(0xb000_0000 + k);
-    let n = mib << 20;
+    r.count(if sweep { "size_sweep_scenarios" } else { "bulk_scenarios" }, 1);
+    r.nontrivial(if sweep { 0xb800_0000 } else { 0xb000_0000 } + k);
+    let n = if sweep { sweep_uni } else { mib << 20 };
+    let xb_text = if sweep { format!("XB:{}:{}", k, "x".repeat(sweep_bc)) } else { format!("XB:{}", k) };
     let desc = J::obj(vec![("unicast_bytes", J::u(n as u64)), ("client_pause_before_reading_ms", J::u(pause_ms)), ("poll_interval_ms", poll.map(|p| J::u(p.as_millis() as u64)).unwrap_or(J::Null)), ("handler_threads", J::u(handlers as u64))]);
     let connected = |a: SocketAddr, st: &Arc<St>| st.log.lock().unwrap().iter().any(|(e, _)| *e == Ev::Connect(a));
     let (mut a, a_local) = match ws_connect(addr) {
@@ -887,7 +893,7 @@ fn bulk_scenario(r: &mut Report, seed: u64, k: u64) {
     }
     std::thread::sleep(Duration::from_millis(pause_ms));
     // a broadcast submitted while the unicast is (possibly) still being written
-    sender.broadcast(Message::new(format!("XB:{}", k)));
+    sender.broadcast(Message::new(xb_text.clone()));
     // now read: big text, TAIL, XB in this order on A; XB on B
     let read_texts = |c: &mut Conn, want: usize, limit: Duration| -> (Vec<Vec<u8>>, Option<String>) {
         let mut got: Vec<Vec<u8>> = Vec::new();
@@ -928,7 +934,7 @@ fn bulk_scenario(r: &mut Report, seed: u64, k: u64) {
     let (got_a, err_a) = read_texts(&mut a, 3, Duration::from_secs(20));
     let (got_b, err_b) = read_texts(&mut b, 1, Duration::from_secs(20));
     let mut viol = |r: &mut Report, sig: &str, what: String| {
-        r.violation(sig, format!("[bulk: {} MiB unicast, client starts reading after {} ms, poll {:?}] {}", mib, pause_ms, poll, what), J::obj(vec![("scenario", desc.clone()), ("observed", J::s(&what))]), replay.clone());
+        r.violation(sig, format!("[bulk: {} byte unicast, {} byte external broadcast, client starts reading after {} ms, poll {:?}] {}", n, xb_text.len(), pause_ms, poll, what), J::obj(vec![("scenario", desc.clone()), ("observed", J::s(&what))]), replay.clone());
     };
     let describe = |m: &Vec<u8>| if m.len() > 40 { format!("{} bytes", m.len()) } else { format!("{:?}", show(m, 40)) };
     match err_a {
@@ -936,7 +942,7 @@ fn bulk_scenario(r: &mut Report, seed: u64, k: u64) {
         None => {
             // the broadcast comes from another thread: it may be queued before, between or after the handler's two unicasts
             // (building the large message takes the handler a while); the unicasts themselves keep their order
-            let xb = format!("XB:{}", k).into_bytes();
+            let xb = xb_text.clone().into_bytes();
             let nxb = got_a.iter().filter(|m| **m == xb).count();
             let uni: Vec<&Vec<u8>> = got_a.iter().filter(|m| **m != xb).collect();
             let big_ok = uni.len() == 2 && uni[0].len() == n && uni[0].iter().enumerate().all(|(i, b)| *b == bulk_byte(i, k));
@@ -945,15 +951,15 @@ fn bulk_scenario(r: &mut Report, seed: u64, k: u64) {
             } else if *uni[1] != format!("TAIL:{}", k).into_bytes() || nxb != 1 {
                 viol(r, "C12/unicast-lost", format!("besides the large unicast the client received {:?} instead of TAIL and exactly one broadcast", got_a.iter().map(describe).collect::<Vec<_>>()));
             } else {
-                r.count("bulk_unicasts_intact", 1);
+                r.count(if sweep { "size_sweep_unicasts_intact" } else { "bulk_unicasts_intact" }, 1);
                 r.count("bulk_bytes_delivered", n as u64);
             }
         }
     }
     match err_b {
         Some(e) => viol(r, "C12/broadcast-missed", format!("the idle second client did not receive the broadcast: {}", e)),
-        None if got_b[0] != format!("XB:{}", k).as_bytes() => viol(r, "C12/message-foreign", format!("the idle second client received {} instead of the broadcast", describe(&got_b[0]))),
-        None => r.count("bulk_broadcasts_received_by_idle_client", 1),
+        None if got_b[0] != xb_text.as_bytes() => viol(r, "C12/message-foreign", format!("the idle second client received {} instead of the broadcast", describe(&got_b[0]))),
+        None => r.count(if sweep { "size_sweep_broadcasts_received_by_idle_client" } else { "bulk_broadcasts_received_by_idle_client" }, 1),
     }
     // close both, shut down
     for c in [&mut a, &mut b] {
@@ -974,21 +980,32 @@ pub fn main(args: &Args) {
     let n: u64 = if args.thorough() { 1500 } else { 160 };
     let nbulk: u64 = if args.thorough() { 64 } else { 8 };
     let bulk_only = args.get("bulk").map(|s| s.parse::<u64>().unwrap());
+    let sizes_only = args.get("sizes").map(|s| s.parse::<u64>().unwrap());
+    let nsizes: u64 = if args.thorough() { 64 } else { 16 };
     let nbusy: u64 = if args.thorough() { 48 } else { 8 };
     let busy_only = args.get("busy").map(|s| s.parse::<u64>().unwrap());
     let nslow: u64 = if args.thorough() { 64 } else { 8 };
     let args_slowfrag = args.get("slowfrag").map(|s| s.parse::<u64>().unwrap());
     humphrey::verif::set_failpoint_handler(fp_handler);
-    let reports = par(if only.is_some() || bulk_only.is_some() || busy_only.is_some() || args_slowfrag.is_some() { 1 } else { 8 }, move |shard, nsh| {
+    let reports = par(if only.is_some() || bulk_only.is_some() || sizes_only.is_some() || busy_only.is_some() || args_slowfrag.is_some() { 1 } else { 8 }, move |shard, nsh| {
         let mut r = Report::new();
         if let Some(b) = bulk_only {
-            bulk_scenario(&mut r, seed, b);
+            bulk_scenario(&mut r, seed, b, false);
+            return r;
+        }
+        if let Some(b) = sizes_only {
+            bulk_scenario(&mut r, seed, b, true);
             return r;
         }
         if only.is_none() {
             let mut b = shard as u64;
             while b < nbulk {
-                bulk_scenario(&mut r, seed, b);
+                bulk_scenario(&mut r, seed, b, false);
+                b += nsh as u64;
+            }
+            let mut b = shard as u64;
+            while b < nsizes {
+                bulk_scenario(&mut r, seed, b, true);
                 b += nsh as u64;
             }
         }
@@ -996,7 +1013,7 @@ pub fn main(args: &Args) {
             slow_fragments_scenario(&mut r, seed, b);
             return r;
         }
-        if only.is_none() && bulk_only.is_none() && busy_only.is_none() {
+        if only.is_none() && bulk_only.is_none() && busy_only.is_none() && sizes_only.is_none() {
             let mut b = shard as u64;
             while b < nslow {
                 slow_fragments_scenario(&mut r, seed, b);
@@ -1031,5 +1048,5 @@ pub fn main(args: &Args) {
         total.nontrivial(1);
         total.nontrivial(2);
     }
-    total.write(out, "scenarios of 1..8 reference clients against AsyncWebsocketApp::new_unlinked_with_config linked to a real App through async_websocket_handler: handler pools of 1 (every other scenario) or 2..8 threads, poll interval none / 1 ms / 10 ms, heartbeat off or (100 ms, 1.5 s); each client runs a random script over {text/binary messages in 1..4 fragments with pings interleaved, several per poll interval, ping, pauses <= 5 ms}, a quarter leave early with Close, with heartbeat a quarter disconnect abruptly; messages marked U trigger a unicast reply from the handler, B a broadcast; every connect handler broadcasts a join notice, an external AsyncSender broadcasts concurrently; half of the fragmented messages are sent fragment by fragment with pauses, a third of the others with every frame cut in two writes (anywhere in header, key or payload) 0.8-3.3 ms apart; seeded delays at the three poll-loop failpoints; ends with shutdown of both apps; plus bulk scenarios: a client requests a 6..16 MiB unicast and does not read for 0.3..1 s (more than the kernel buffers), then must receive it intact followed by a small unicast and a broadcast, which an idle second client must receive too; and busy-heartbeat scenarios: heartbeat 100 ms / timeout 1 s, one client sending a message every millisecond for ~3 s while answering every ping: it must stay connected and all 2400 messages must be dispatched in order. distinct = distinct scenarios; every scenario is non-trivial (all events of all clients are judged)", None, &["order is asserted only with a single handler thread (with more, handler entry order may legitimately differ from dispatch order)", "a broadcast must reach a client exactly once if that client's Connect was logged before the broadcast was submitted and it stayed until the final barrier", "abruptly disconnected clients: at-most-once and no foreign ids (the kernel may discard their unread bytes)"]);
+    total.write(out, "scenarios of 1..8 reference clients against AsyncWebsocketApp::new_unlinked_with_config linked to a real App through async_websocket_handler: handler pools of 1 (every other scenario) or 2..8 threads, poll interval none / 1 ms / 10 ms, heartbeat off or (100 ms, 1.5 s); each client runs a random script over {text/binary messages in 1..4 fragments with pings interleaved, several per poll interval, ping, pauses <= 5 ms}, a quarter leave early with Close, with heartbeat a quarter disconnect abruptly; messages marked U trigger a unicast reply from the handler, B a broadcast; every connect handler broadcasts a join notice, an external AsyncSender broadcasts concurrently; half of the fragmented messages are sent fragment by fragment with pauses, a third of the others with every frame cut in two writes (anywhere in header, key or payload) 0.8-3.3 ms apart; seeded delays at the three poll-loop failpoints; ends with shutdown of both apps; plus bulk scenarios: a client requests a 6..16 MiB unicast and does not read for 0.3..1 s (more than the kernel buffers), then must receive it intact followed by a small unicast and a broadcast, which an idle second client must receive too; size-sweep scenarios of the same shape with unicast and external-broadcast sizes at and around the three frame-length forms (0..128, 65534..65537, 70 000, 100 000, 131 071..131 073, 200 000, 1 MiB); and busy-heartbeat scenarios: heartbeat 100 ms / timeout 1 s, one client sending a message every millisecond for ~3 s while answering every ping: it must stay connected and all 2400 messages must be dispatched in order. distinct = distinct scenarios; every scenario is non-trivial (all events of all clients are judged)", None, &["order is asserted only with a single handler thread (with more, handler entry order may legitimately differ from dispatch order)", "a broadcast must reach a client exactly once if that client's Connect was logged before the broadcast was submitted and it stayed until the final barrier", "abruptly disconnected clients: at-most-once and no foreign ids (the kernel may discard their unread bytes)"]);
 }
